@@ -1,4 +1,5 @@
 import ShootVerif.Drive.Common
+import ShootVerif.Drive.Transfer
 import ShootVerif.Spec.Rest
 namespace ShootVerif.Drive.RestD
 open ShootVerif.Rest ShootVerif.Drive
@@ -129,10 +130,13 @@ def restIfaceCase (id : String) (payload : List Sexp) : List String :=
   match parseIface p, ((p.field? "calls").map (·.args)).getD [] |>.mapM parseCall with
   | some (iface, ispec), some calls =>
     let idx := calls.zipIdx
-    let specLines := [("gen", "ok")] ++ (idx.map (fun (c, k) =>
-      match findMethod ispec c.method with
-      | some m => showRequest s!"c{k}." (specRequest ispec m c.args)
-      | none => [(s!"c{k}.out", "no-such-method")])).flatten
+    let reg := region ispec calls
+    -- a rejected directive (two parameters with one alias): diagnosed failure, nothing generated
+    let specLines := (if reg == "Rejected" then [("gen", "fatal")] else
+      [("gen", "ok")] ++ (idx.map (fun (c, k) =>
+        match findMethod ispec c.method with
+        | some m => showRequest s!"c{k}." (specRequest ispec m c.args)
+        | none => [(s!"c{k}.out", "no-such-method")])).flatten)
       ++ showIntended ispec
     let modelLines := (match generate iface with
       | .fatal => [("gen", "fatal")]
@@ -142,7 +146,7 @@ def restIfaceCase (id : String) (payload : List Sexp) : List String :=
           | some pl => showOutcome s!"c{k}." (send pl c.args)
           | none => [(s!"c{k}.out", "no-such-method")])).flatten)
       ++ showParsed iface
-    both id modelLines specLines (region ispec calls)
+    both id modelLines specLines reg
   | _, _ => err id "bad-rest-iface-case"
 
 /-- C01 leg of the rest area: `(c01rest (i (hdoc …) (headers …) (methods …)) …)` — the interfaces one
@@ -165,5 +169,32 @@ def c01RestCase (id : String) (payload : List Sexp) : List String :=
       else "WF"
     both id modelLines specLines reg
   | none => err id "bad-c01rest-case"
+
+/-- a Go `map[string]string` built from recogniser output, printed like harness restx does -/
+def showDirMap (kvs : List (List Char × List Char)) : String :=
+  let m := RestD.sortKV (setAll [] (strKVs kvs))
+  "{" ++ ",".intercalate (m.map (fun (k, v) => hexOf k.toList ++ "=" ++ hexOf v.toList)) ++ "}"
+
+/-- `(rest-dir <hex of a doc text> <hex of the value of the shoot struct tag>)`: the five recognisers
+    on raw text (bytes as characters), for the in-process differential against the real regexps -/
+def restDirCase (id : String) (payload : List Sexp) : List String :=
+  match payload with
+  | [.atom hx, .atom tx] =>
+    match unhex hx.toList, unhex tx.toList with
+    | some cs, some tag =>
+      let lines := [
+        ("alias", match parseAlias cs with
+          | none => "nil"
+          | some kvs => if kvs.isEmpty then "nil" else showDirMap kvs),
+        ("kv", let kvs := parseKV cs; if kvs.isEmpty then "nil" else showDirMap kvs),
+        ("headers", showDirMap (parseHeaders cs)),
+        ("fieldalias", hexOf (parseFieldAlias tag)),
+        ("path", match parsePath cs with
+          | .noMatch => "none"
+          | .fatal => "fatal"
+          | .ok d => d.verb.upper ++ " " ++ hexOf d.path ++ " [" ++ ",".intercalate (d.params.map hexOf) ++ "]")]
+      both id lines []
+    | _, _ => err id "bad-hex"
+  | _ => err id "bad-rest-dir-case"
 
 end ShootVerif.Drive
